@@ -69,10 +69,11 @@ func (ex *Exec) step(st *State, fr *Frame, in ssa.Instruction) (forks []*State, 
 	case *ssa.Alloc:
 		r := ex.allocRef(st, x.Comment)
 		et := deref(x.Type())
-		if _, isStruct := et.Underlying().(*types.Struct); isStruct {
+		if _, isStruct := asStruct(et); isStruct {
 			w.addr[r.S] = &Addr{Kind: "struct", Base: r}
 		}
 		ex.store(st, r, w.Zero(et), et)
+		ex.initLocks(st, r, et, 0)
 		fr.regs[x] = r
 		return nil, false
 
@@ -105,7 +106,7 @@ func (ex *Exec) step(st *State, fr *Frame, in ssa.Instruction) (forks []*State, 
 			}
 			ex.guardCheck(st, a, false, x.Pos())
 			v := ex.load(st, st.heap, a, x.Type())
-			if _, isStruct := x.Type().Underlying().(*types.Struct); !isStruct {
+			if _, isStruct := asStruct(x.Type()); !isStruct {
 				ex.assumeTypedB(st, v, x.Type(), ex.loadBound(st.heap, a, x.Type()))
 			}
 			fr.regs[x] = v
@@ -259,7 +260,7 @@ func (ex *Exec) step(st *State, fr *Frame, in ssa.Instruction) (forks []*State, 
 		if isByte(elem) {
 			bm := w.heapGet(st.heap, "BM", ArraySort(SRef, SBytes))
 			w.heapSet(st.heap, "BM", Store(bm, r, App(SBytes, "bzero", cp)))
-		} else if _, isStruct := elem.Underlying().(*types.Struct); !isStruct {
+		} else if _, isStruct := asStruct(elem); !isStruct {
 			n, s := w.ElemArray(elem)
 			arr := w.heapGet(st.heap, n, s)
 			_, inner, _ := s.IsArray()
@@ -469,7 +470,7 @@ func (ex *Exec) elemAddr(base, absIdx Term, elem types.Type) Term {
 		w.addr[t.S] = &Addr{Kind: "belem", Base: base, Idx: absIdx, Elem: SInt}
 		return t
 	}
-	if _, isStruct := elem.Underlying().(*types.Struct); isStruct {
+	if _, isStruct := asStruct(elem); isStruct {
 		w.addr[t.S] = &Addr{Kind: "struct", Base: t}
 		return t
 	}
@@ -485,7 +486,7 @@ func (ex *Exec) arrElemAddr(ptr, idx Term, arrT, elem types.Type) Term {
 	if _, ok := w.addr[t.S]; ok {
 		return t
 	}
-	if _, isStruct := elem.Underlying().(*types.Struct); isStruct {
+	if _, isStruct := asStruct(elem); isStruct {
 		w.addr[t.S] = &Addr{Kind: "struct", Base: t}
 		return t
 	}
